@@ -55,7 +55,19 @@ class HexaryTrieFog:
         return copy
 '''
 
+IDENT_CTL = '''
+BLANK = b""
+
+
+def validate_is_bytes(value):
+    if value is BLANK:                # identity test on a bytes value
+        return
+    if not isinstance(value, bytes):
+        raise TypeError(value)
+'''
+
 CONTROLS = {
+    "IDENT": (None, {"trie/validation.py": IDENT_CTL}, "identity-test:validate_is_bytes"),
     # rule id -> (property to run it as, sources, substring of a construct that must be a violation)
     "EFF2": ("C04", {"trie/hexary.py": HEXARY_CTL}, "entry:HexaryTrie.forget"),
     "EFF4": ("C01", {"trie/hexary.py": HEXARY_CTL}, "reader:HexaryTrie.get"),
